@@ -51,7 +51,7 @@ def mpi_at(b, p):
 class Recipient(object):
     """a foreign key pair that can decrypt (RSA, X25519, NIST ECDH)."""
 
-    def __init__(self, kind, created=1262304000, kdf=None):
+    def __init__(self, kind, created=1262304000, kdf=None, raw_private=None):
         """kdf: (hash id, cipher id) of the RFC 6637 KDF parameter field; default: the per-curve values GnuPG / PGPy generate."""
         self.kind = kind
         self.created = created
@@ -61,7 +61,8 @@ class Recipient(object):
             self.alg = 1
             self.material = build.mpi(n.n) + build.mpi(n.e)
         elif kind == 'cv25519':
-            self.priv = x25519.X25519PrivateKey.generate()
+            # raw_private: the 32 octets of the secret as stored (not necessarily clamped: readers clamp when they use it)
+            self.priv = x25519.X25519PrivateKey.generate() if raw_private is None else x25519.X25519PrivateKey.from_private_bytes(raw_private)
             raw = self.priv.public_key().public_bytes(serialization.Encoding.Raw, serialization.PublicFormat.Raw)
             self.alg = 18
             self.oid = build.OID['cv25519']
@@ -69,7 +70,7 @@ class Recipient(object):
             self.material = bytes([len(self.oid)]) + self.oid + build.mpi_bytes(b'\x40' + raw) + bytes([3, 1, self.kdf[0], self.kdf[1]])
         else:
             curve = {'ecdh256': ('p256', (8, 7)), 'ecdh384': ('p384', (9, 8)), 'ecdh521': ('p521', (10, 9))}[kind]
-            self.priv = ec.generate_private_key(build.CURVE[curve[0]]())
+            self.priv = ec.generate_private_key(build.CURVE[curve[0]]()) if raw_private is None else ec.derive_private_key(int.from_bytes(raw_private, 'big'), build.CURVE[curve[0]]())
             nums = self.priv.public_key().public_numbers()
             sz = (self.priv.curve.key_size + 7) // 8
             self.alg = 18
